@@ -108,6 +108,24 @@ theorem rootWin_sameBut {t t' : Tree} {id : Id} (h : SameBut t t' id) (hr : Root
   exact ⟨⟨w', hw', by rw [hc.1]; exact hf, by rw [hc.2.2.2.2]; exact hroot, by rw [hc.2.2.2.1]; exact hp,
     by rw [hc.2.1]; exact htop, by rw [hc.2.1]; exact hleft⟩⟩
 
+theorem wfp_congr {t t' : Tree} (h : t'.wins = t.wins) (hwf : WFp t) : WFp t' := by
+  constructor
+  intro cur w hw ch hch
+  rw [h] at hw
+  obtain ⟨cw, hcw, hcp, hcr⟩ := hwf.child cur w hw ch hch
+  exact ⟨cw, by rw [h]; exact hcw, hcp, hcr⟩
+
+theorem rootWin_congr {t t' : Tree} (h : t'.wins = t.wins) (hr : RootWin t) : RootWin t' := by
+  obtain ⟨w, hw⟩ := hr.ex
+  exact ⟨⟨w, by rw [h]; exact hw⟩⟩
+
+/-- A visibility change of a window other than the root keeps the root as it is. -/
+theorem rootOk_sameBut {t t' : Tree} {id : Id} (h : SameBut t t' id) (hid : id ≠ 0) (hr : RootOk t) : RootOk t' := by
+  obtain ⟨w, hw, hf, hv, htop, hleft⟩ := hr.ex
+  obtain ⟨w', hw', hc⟩ := map_core_some (h.other 0 (Ne.symm hid)) hw
+  simp only [core, Prod.mk.injEq] at hc
+  exact ⟨⟨w', hw', by rw [hc.2.1]; exact hf, by rw [hc.1]; exact hv, by rw [hc.2.2.1]; exact htop, by rw [hc.2.2.1]; exact hleft⟩⟩
+
 /-! ### the common part: a visibility change followed by an expose that covers everything under the window -/
 
 /-- The cells under `id` reached from the root. -/
@@ -156,7 +174,7 @@ theorem hide_step (content : Id → Int → Int → Cell) (screen : Int → Int 
     (h : WinTree.hide t (t.wins.size + 1) id = .ok t') (hid : id ≠ 0)
     (hwf : WFp t) (hr : RootWin t) (hne : ∀ x ∈ t.root.damage, x.Nonempty) (hpos : RootsPositive t)
     (hinv : InvC content t screen) :
-    InvC content t' screen ∧ WFp t' ∧ RootWin t' ∧ (∀ x ∈ t'.root.damage, x.Nonempty) ∧ RootsPositive t' ∧
+    InvC content t' screen ∧ WFp t' ∧ RootWin t' ∧ (∀ x ∈ t'.root.damage, x.Nonempty) ∧ (RectSet.Inv t.root.damage → RectSet.Inv t'.root.damage) ∧ RootsPositive t' ∧
     t'.wins.size = t.wins.size ∧
     (t'.root = t.root ∨ (t'.root.needsExpose = true ∧ t'.root.needsLater = true ∧ t'.root.changes = t.root.changes)) ∧
     (∃ t1, SameBut t t1 id ∧ t'.wins = t1.wins) := by
@@ -182,7 +200,7 @@ theorem hide_step (content : Id → Int → Int → Cell) (screen : Int → Int 
     -- generic finish given the tree `t2` handed to expose
     have finish : ∀ (t2 : Tree) (p : Id), SameBut t t2 id → t2.root = t.root → w0.parent = some p →
         expose t2 (t.wins.size + 1) p (some w0.rect) = .ok t' →
-        (InvC content t' screen ∧ WFp t' ∧ RootWin t' ∧ (∀ x ∈ t'.root.damage, x.Nonempty) ∧ RootsPositive t' ∧
+        (InvC content t' screen ∧ WFp t' ∧ RootWin t' ∧ (∀ x ∈ t'.root.damage, x.Nonempty) ∧ (RectSet.Inv t.root.damage → RectSet.Inv t'.root.damage) ∧ RootsPositive t' ∧
           t'.wins.size = t.wins.size ∧
           (t'.root = t.root ∨ (t'.root.needsExpose = true ∧ t'.root.needsLater = true ∧ t'.root.changes = t.root.changes)) ∧
           (∃ t1, SameBut t t1 id ∧ t'.wins = t1.wins)) := by
@@ -196,9 +214,9 @@ theorem hide_step (content : Id → Int → Int → Cell) (screen : Int → Int 
         have := hpos x w' hw' (by rw [hc.2.2.2.2]; exact hxr)
         rw [hc.2.1] at this
         exact this
-      obtain ⟨hwins, hne', hfl, hcov⟩ := expose_spec _ t2 p _ t' hex (by rw [hroot2]; exact hne) hpos2
+      obtain ⟨hwins, hne', hdi, hfl, hcov⟩ := expose_spec _ t2 p _ t' hex (by rw [hroot2]; exact hne) hpos2
       have hsz : t2.wins.size = t.wins.size := hsb2.size
-      refine ⟨?_, ?_, ?_, hne', ?_, by rw [hwins, hsz], ?_, ⟨t2, hsb2, hwins⟩⟩
+      refine ⟨?_, ?_, ?_, hne', (by rw [hroot2] at hdi; exact hdi), ?_, by rw [hwins, hsz], ?_, ⟨t2, hsb2, hwins⟩⟩
       · refine invC_vis_change content screen t t2 t' id hsb2 (by rw [hroot2]) hwins
           (fun L C hc => (hcov L C).2 (Or.inl hc)) ?_ hinv
         intro L C hu _
@@ -236,7 +254,7 @@ theorem hide_step (content : Id → Int → Int → Cell) (screen : Int → Int 
       cases h
       have hwf1 := wfp_sameBut hsb1 hwf
       have hr1 := rootWin_sameBut hsb1 hr
-      refine ⟨?_, hwf1, hr1, by rw [hroot1]; exact hne, ?_, hsb1.size, Or.inl hroot1, ⟨t', hsb1, rfl⟩⟩
+      refine ⟨?_, hwf1, hr1, by rw [hroot1]; exact hne, (by rw [hroot1]; exact fun hi => hi), ?_, hsb1.size, Or.inl hroot1, ⟨t', hsb1, rfl⟩⟩
       · refine invC_vis_change content screen t t' t' id hsb1 (by rw [hroot1]) rfl (fun _ _ hc => hc) ?_ hinv
         intro L C hu _
         obtain ⟨idw, _, _, _, h1, _, _, _, _, _, h7⟩ := underRoot_ctx t' hwf1 hr1 id L C hu
@@ -276,7 +294,7 @@ theorem vis_expose_finish (content : Id → Int → Int → Cell) (screen : Int 
     (hwf : WFp t) (hr : RootWin t) (hne : ∀ x ∈ t.root.damage, x.Nonempty) (hpos : RootsPositive t)
     (hinv : InvC content t screen)
     (hregion : WFp t2 → RootWin t2 → ∀ L C, UnderRoot t2 id L C → ExposedRegion t2 (t.wins.size + 1) target e L C) :
-    InvC content t' screen ∧ WFp t' ∧ RootWin t' ∧ (∀ x ∈ t'.root.damage, x.Nonempty) ∧ RootsPositive t' ∧
+    InvC content t' screen ∧ WFp t' ∧ RootWin t' ∧ (∀ x ∈ t'.root.damage, x.Nonempty) ∧ (RectSet.Inv t.root.damage → RectSet.Inv t'.root.damage) ∧ RootsPositive t' ∧
     t'.wins.size = t.wins.size ∧
     (t'.root = t.root ∨ (t'.root.needsExpose = true ∧ t'.root.needsLater = true ∧ t'.root.changes = t.root.changes)) ∧
     (∃ t1, SameBut t t1 id ∧ t'.wins = t1.wins) := by
@@ -289,9 +307,9 @@ theorem vis_expose_finish (content : Id → Int → Int → Cell) (screen : Int 
     have := hpos x w' hw' (by rw [hc.2.2.2.2]; exact hxr)
     rw [hc.2.1] at this
     exact this
-  obtain ⟨hwins, hne', hfl, hcov⟩ := expose_spec _ t2 target _ t' hex (by rw [hroot2]; exact hne) hpos2
+  obtain ⟨hwins, hne', hdi, hfl, hcov⟩ := expose_spec _ t2 target _ t' hex (by rw [hroot2]; exact hne) hpos2
   have hsz : t2.wins.size = t.wins.size := hsb2.size
-  refine ⟨?_, ?_, ?_, hne', ?_, by rw [hwins, hsz], ?_, ⟨t2, hsb2, hwins⟩⟩
+  refine ⟨?_, ?_, ?_, hne', (by rw [hroot2] at hdi; exact hdi), ?_, by rw [hwins, hsz], ?_, ⟨t2, hsb2, hwins⟩⟩
   · refine invC_vis_change content screen t t2 t' id hsb2 (by rw [hroot2]) hwins
       (fun L C hc => (hcov L C).2 (Or.inl hc)) ?_ hinv
     intro L C hu _
@@ -314,7 +332,7 @@ theorem show_step (content : Id → Int → Int → Cell) (screen : Int → Int 
     (h : WinTree.show t (t.wins.size + 1) id = .ok t')
     (hwf : WFp t) (hr : RootWin t) (hne : ∀ x ∈ t.root.damage, x.Nonempty) (hpos : RootsPositive t)
     (hinv : InvC content t screen) :
-    InvC content t' screen ∧ WFp t' ∧ RootWin t' ∧ (∀ x ∈ t'.root.damage, x.Nonempty) ∧ RootsPositive t' ∧
+    InvC content t' screen ∧ WFp t' ∧ RootWin t' ∧ (∀ x ∈ t'.root.damage, x.Nonempty) ∧ (RectSet.Inv t.root.damage → RectSet.Inv t'.root.damage) ∧ RootsPositive t' ∧
     t'.wins.size = t.wins.size ∧
     (t'.root = t.root ∨ (t'.root.needsExpose = true ∧ t'.root.needsLater = true ∧ t'.root.changes = t.root.changes)) ∧
     (∃ t1, SameBut t t1 id ∧ t'.wins = t1.wins) := by
